@@ -167,8 +167,18 @@ func c18(c *h.Ctx) {
 				src := live[r.Intn(len(live))]
 				sid, _ := ol.VerifCid(src)
 				parent := context.Background()
-				if r.Bool() {
+				switch r.Intn(4) {
+				case 0:
 					parent = context.WithValue(parent, c18ctxKey("p"), i)
+				case 1, 2:
+					// the parent is itself bound to ANOTHER connection (e.g. the listener's context, possibly
+					// wrapped by WithCancel / WithValue): the alias must still carry the SOURCE's id
+					parent = live[r.Intn(len(live))]
+					if r.Bool() {
+						var cancel context.CancelFunc
+						parent, cancel = context.WithCancel(parent)
+						defer cancel()
+					}
 				}
 				a := ol.AliasContext(parent, src)
 				aid, _ := ol.VerifCid(a)
